@@ -23,6 +23,14 @@ func (fg *FuncGen) instr(in ssa.Instruction) {
 		p := &Ptr{Kind: "obj", Ref: ref, T: elem}
 		fg.ptr[v] = p
 		fg.store(p, g.Zero(elem))
+		if isNamed(elem, "strings", "Builder") {
+			g.Family("B_len", "(Array Int Int)")
+			g.Family("B_runes", "(Array Int Int)")
+			g.Family("B_ok", "(Array Int Bool)")
+			fg.setFam("B_len", "(store "+fg.famIn(fg.st, "B_len")+" "+ref+" 0)")
+			fg.setFam("B_runes", "(store "+fg.famIn(fg.st, "B_runes")+" "+ref+" 0)")
+			fg.setFam("B_ok", "(store "+fg.famIn(fg.st, "B_ok")+" "+ref+" true)")
+		}
 	case *ssa.BinOp:
 		fg.binop(v)
 	case *ssa.UnOp:
@@ -677,6 +685,11 @@ func (fg *FuncGen) makeInterface(v *ssa.MakeInterface) {
 	xt := v.X.Type()
 	if g.SortOf(v.Type()) == "Val" {
 		if c := g.valCtor(xt, x.S); c != "" {
+			if strings.HasPrefix(c, "(VStr ") {
+				if _, isConst := v.X.(*ssa.Const); !isConst {
+					fg.obl("utf8", "", v.Pos(), []string{"C11"}, "(str.aligned "+x.S+")", "string value starts and ends on code point boundaries of its text")
+				}
+			}
 			fg.define(v, c)
 			return
 		}
